@@ -7,7 +7,8 @@
      crash_state s ops k v   directory after a crash of a run issuing ops from s: k complete operations
                      (v = 0), the k-th one a write cut short (v = 1), power loss after k operations (v = 2) *)
 From Coq Require Import List NArith Lia.
-From C19 Require Import Model ProofsMap ProofsProto.
+From Coq Require Import Permutation ZArith.
+From C19 Require Import Model ProofsMap ProofsProto ProofsMerge.
 Import ListNotations.
 
 (* thm:C19_resume_complete, part 1 — the first run (StartSearch + processRequest on an empty directory):
@@ -63,3 +64,48 @@ Proof.
     try discriminate; try lia.
   assert (f = 1%N) by lia. subst. inversion H. split; [reflexivity|]. simpl. auto.
 Qed.
+
+(* thm:C19_equals_sync — PARTIAL (see the report): the full statement is
+     forall qs qs', Permutation qs qs' ->
+       same_answer limit (fetch hi rev qs') (sync_search naggs limit hi rev qs) = true
+   (under: group tokens valid UTF-8, i.e. the JSON key codec is injective on them; <= 8096 samples per
+   bin). Proved here: the histogram component is a fold of commuting events (bucket additions modulo
+   2^64 and duplicate repairs), so it does not depend on the order of the files nor on when the
+   duplicates are repaired. The ID and aggregation components are checked on every generated case
+   (case_spec_ok on the real outputs, case_agrees against this model), not proved. *)
+Theorem C19_equals_sync_hist_partial : forall e1 e2 h, Permutation e1 e2 ->
+  fold_left hist_event e1 h = fold_left hist_event e2 h.
+Proof. exact hist_events_order_free. Qed.
+Print Assumptions C19_equals_sync_hist_partial.
+
+Theorem C19_fetch_step_hist : forall acc q hi rev, (0 <? hi)%N = true ->
+  q_hist (merge_qprs acc [q] None hi rev)
+  = fold_left hist_event
+      (q_hist q ++ map (repair_event hi) (snd (dedup (sort_ids rev (q_ids acc ++ q_ids q)))))
+      (q_hist acc).
+Proof. exact merge_step_hist. Qed.
+Print Assumptions C19_fetch_step_hist.
+
+(* ex:C19_hist_interval_witness — the code before commit c0f0c39 (histInterval = 1 in
+   FetchSearchResult) is refuted: bucket 1000 stays over-counted and a bucket 1005 with count 2^64-1
+   appears, while the synchronous search and the repaired fetch give {1000: 1, 1010: 1}. *)
+Example C19_hist_interval_v0_refuted :
+  q_hist (fetch_v0 false [w_q1; w_q2]) = [(1000, 2); (1005, 18446744073709551615); (1010, 1)]%N
+  /\ q_hist (sync_search 0 100 10 false [w_q1; w_q2]) = [(1000, 1); (1010, 1)]%N
+  /\ q_hist (fetch 10 false [w_q1; w_q2]) = [(1000, 1); (1010, 1)]%N
+  /\ q_ids (fetch 10 false [w_q1; w_q2]) = q_ids (sync_search 0 100 10 false [w_q1; w_q2]).
+Proof. vm_compute. repeat split. Qed.
+
+(* known finding resume/invalid-utf8-group, as a model-level witness: if the JSON key codec maps two
+   bins to one key (tokens "\xff" and "\xfe" both become U+FFFD) the decoded partial result has lost
+   a bin, so the merged answer differs from the synchronous one. The equality statement above
+   therefore carries the hypothesis that the codec is injective on the group tokens. *)
+Definition rekey (codec : N -> N) (a : agg) : agg :=
+  (fst a, fold_left (fun m e => nm_upd (codec (fst e)) (fun _ => snd e) m) (snd a) []).
+Example C19_json_key_collision_refuted :
+  let x := {| sc_min := 48; sc_max := 48; sc_sum := 48; sc_total := 1; sc_ne := 0; sc_samples := [] |}%Z in
+  let y := {| sc_min := 32; sc_max := 32; sc_sum := 32; sc_total := 1; sc_ne := 0; sc_samples := [] |}%Z in
+  let a : agg := (0%Z, [(1, x); (2, y)]%N) in
+  let codec := fun b : N => if (b =? 1)%N || (b =? 2)%N then 3%N else b in
+  length (snd (rekey codec a)) = 1%nat /\ length (snd (rekey (fun b => b) a)) = 2%nat.
+Proof. vm_compute. split; reflexivity. Qed.
